@@ -696,6 +696,105 @@ func cmdConc(prop string, args []string) int {
 				}
 			}
 		}
+		// overlapping requests for an account that cannot be unlocked (none of the configured passphrases opens
+		// it): every one of them is answered
+		if len(monFail) == 0 {
+			if w, err := fx.Fetcher.FetchWallet(ctx, "Wallet 1"); err == nil {
+				if l, ok := w.(e2wtypes.WalletLocker); ok {
+					_ = l.Unlock(ctx, nil)
+				}
+				if a, err := w.(e2wtypes.WalletAccountCreator).CreateAccount(ctx, "Sealed", []byte("a passphrase the instance does not know")); err == nil {
+					_ = fx.Fetcher.AddAccount(ctx, w, a)
+					if l, ok := a.(e2wtypes.AccountLocker); ok {
+						_ = l.Lock(ctx)
+					}
+					finished := make(chan int, 1)
+					go func() {
+						var wg sync.WaitGroup
+						answered := int64(0)
+						for g := 0; g < 8; g++ {
+							wg.Add(1)
+							go func(g int) {
+								defer wg.Done()
+								hctx := ctxWithClient(ctx, "client1", "10.0.0.1")
+								for i := 0; i < 3; i++ {
+									if g%2 == 0 {
+										_, _ = inst.Handler.Sign(hctx, &pb.SignRequest{Id: &pb.SignRequest_Account{Account: "Wallet 1/Sealed"}, Domain: mkDomain(domRandao, 0), Data: fill32(byte(i))})
+									} else {
+										_, _ = inst.Handler.Multisign(hctx, &pb.MultisignRequest{Requests: []*pb.SignRequest{
+											{Id: &pb.SignRequest_Account{Account: "Wallet 1/Sealed"}, Domain: mkDomain(domRandao, 0), Data: fill32(byte(i))},
+											{Id: &pb.SignRequest_Account{Account: fx.Accounts[g%len(fx.Accounts)].Path()}, Domain: mkDomain(domRandao, 0), Data: fill32(byte(i))}}})
+									}
+									atomic.AddInt64(&answered, 1)
+								}
+							}(g)
+						}
+						wg.Wait()
+						finished <- int(atomic.LoadInt64(&answered))
+					}()
+					select {
+					case n := <-finished:
+						stats["sealed-account.answered"] = n
+					case <-time.After(40 * time.Second):
+						monFail = append(monFail, "overlapping signing requests (single and batch) naming an account that none of the configured passphrases can unlock were not all answered (40 s)")
+						stats["stuck"]++
+					}
+				}
+			}
+		}
+		// the same kind of load on an instance whose ruler is given the locker as the daemon gives it (no
+		// recording wrapper in between): batches over shared keys in changing orders, and single requests
+		if len(monFail) == 0 {
+			plain, err := NewInstance(ctx, fx, InstanceOpts{AdminIPs: []string{"10.0.0.1"}, Perms: permsFromTbl(stdPermTbl)})
+			if err == nil {
+				base := epoch + 1000
+				finished := make(chan int, 1)
+				go func() {
+					var wg sync.WaitGroup
+					done := int64(0)
+					for g := 0; g < 12; g++ {
+						wg.Add(1)
+						go func(g int) {
+							defer wg.Done()
+							for i := 0; i < 30; i++ {
+								ep := base + uint64(2*i)
+								op := &Op{Kind: KAttests, Client: "client1", IP: "10.0.0.1"}
+								n := 1 + (g+i)%3
+								for j := 0; j < n; j++ {
+									a := fx.Accounts[(g+i*(j+1)+j)%5]
+									dup := false
+									for _, ad := range op.Addrs {
+										dup = dup || ad.Name == a.Path()
+									}
+									if dup {
+										continue
+									}
+									op.Addrs = append(op.Addrs, Addr{Name: a.Path()})
+									op.Atts = append(op.Atts, AttData{Dom: mkDomain(domAttester, 0), BBR: fill32(byte(g + 1)), Src: &Checkpoint{ep - 1, fill32(0)}, Tgt: &Checkpoint{ep, fill32(byte(g + 1))}})
+								}
+								if len(op.Addrs) == 1 && i%2 == 0 {
+									op.Kind = KAttest
+								}
+								_, _ = plain.ExecCtx(ctx, op)
+								atomic.AddInt64(&done, 1)
+							}
+						}(g)
+					}
+					wg.Wait()
+					finished <- int(atomic.LoadInt64(&done))
+				}()
+				select {
+				case n := <-finished:
+					stats["plain-locker.requests"] = n
+				case <-time.After(60 * time.Second):
+					monFail = append(monFail, "twelve clients sending batches over five shared keys (in changing orders) and single requests to an instance with the daemon's own locker: the requests stopped completing (60 s)")
+					stats["stuck"]++
+				}
+				if stats["stuck"] == 0 {
+					plain.Close(ctx)
+				}
+			}
+		}
 		// callers that give up - a cancelled or expired request context, before or while the locks
 		// are being taken - must leave nothing locked: an unrelated request afterwards completes
 		mkBatch := func(keys []int, root byte) *Op {
